@@ -53,6 +53,7 @@ type Contract struct {
 	NoPanic    bool     // trusted: never panics under its requires
 	Effects    []string // free-form effect tags of a trusted function, e.g. "disk-write"
 	NilRecv    bool     // the method tolerates a nil pointer receiver
+	Ats        []AtRule // assertions attached to call sites / effect classes
 }
 
 var reFuncHdr = regexp.MustCompile(`^(func|iface|closure)\s+(\([^)]*\)\s*)?([^\s(]+)\s*(\([^)]*\))?\s*(\([^)]*\))?\s*$`)
@@ -97,6 +98,16 @@ func parseClause(src string) (Clause, error) {
 	return c, nil
 }
 
+// AtRule: "at call <callee>[#n] assert <clause>" or "at effect <tag> assert <clause>".
+// The clause may use the caller's source variables visible at the site and
+// arg0..argN for the call's arguments (arg0 is the receiver of a method call).
+type AtRule struct {
+	Kind   string // call | effect
+	Target string
+	Site   int // -1: every site
+	C      Clause
+}
+
 // ContractSet holds everything parsed from contract, trusted and spec files.
 type ContractSet struct {
 	byHeader []*Contract
@@ -121,6 +132,7 @@ type Spec struct {
 	Defs     map[string]*SpecDef // macros: def name(a S, b T) R = expr
 	DefOrder []string
 	RawSMT   []string
+	Groups   map[string][]string // heap group name -> heap name prefixes
 }
 
 type SpecDef struct {
@@ -132,7 +144,7 @@ type SpecDef struct {
 }
 
 func newSpec() *Spec {
-	return &Spec{Opaque: map[string]string{}, Funs: map[string]*SpecFun{}, Ghosts: map[string]string{}, PurePkgs: map[string]bool{}, Defs: map[string]*SpecDef{}}
+	return &Spec{Opaque: map[string]string{}, Funs: map[string]*SpecFun{}, Ghosts: map[string]string{}, PurePkgs: map[string]bool{}, Defs: map[string]*SpecDef{}, Groups: map[string][]string{}}
 }
 
 // splitTop splits s at commas not nested in parentheses.
@@ -290,6 +302,31 @@ func (cs *ContractSet) parseContractLines(file, pkgPath string, lines []string, 
 			}
 			curLoop = &LoopContract{}
 			cur.Loops[n] = curLoop
+		case "at":
+			if cur == nil {
+				return errf(i, "at outside func")
+			}
+			f := strings.Fields(rest)
+			k := strings.Index(rest, " assert ")
+			if len(f) < 4 || k < 0 || (f[0] != "call" && f[0] != "effect") {
+				return errf(i, "expected: at call|effect <target> assert <clause>")
+			}
+			r := AtRule{Kind: f[0], Target: f[1], Site: -1}
+			if h := strings.LastIndex(r.Target, "#"); h > 0 {
+				if n, err := strconv.Atoi(r.Target[h+1:]); err == nil {
+					r.Site = n
+					r.Target = r.Target[:h]
+				}
+			}
+			c, err := parseClause(rest[k+len(" assert "):])
+			if err != nil {
+				return errf(i, "%v", err)
+			}
+			r.C = c
+			cur.Ats = append(cur.Ats, r)
+		case "trusted":
+			cur.Trusted = true
+			cur.Abstract = append(cur.Abstract, rest)
 		case "pure":
 			cur.Pure = true
 		case "inline":
@@ -401,6 +438,12 @@ func (cs *ContractSet) parseSpecFile(file string) error {
 			}
 			sp.Ghosts[f[0]] = strings.TrimSpace(f[1])
 			sp.GhostOrd = append(sp.GhostOrd, f[0])
+		case "heapgroup":
+			f := strings.Fields(rest)
+			if len(f) < 2 {
+				return fmt.Errorf("%s:%d: heapgroup <name> <prefix>...", file, n)
+			}
+			sp.Groups[f[0]] = append(sp.Groups[f[0]], f[1:]...)
 		case "purepkg":
 			for _, p := range strings.Fields(rest) {
 				sp.PurePkgs[p] = true
